@@ -647,3 +647,98 @@ Proof.
   - rewrite round53_pos_small by exact H. reflexivity.
   - rewrite round53_pos_small by exact H. reflexivity.
 Qed.
+
+(* ---------------------------------------------------------------------- *)
+(* code 0 on a LOESS case that returned: the window of every query is a set *)
+(* of q = min(n, ceil(span n)) NEAREST points of the sorted data            *)
+(* ---------------------------------------------------------------------- *)
+Theorem loess_accept_exact_nearest xs ys deg s qs u rqs : (1 <= length xs)%nat ->
+  loess_accept 0 xs ys deg (XFin s) 0 qs u rqs ->
+  0 < s /\ (0 <= deg)%Z /\ u = true /\
+  exists sx sy, loess_prepare xs ys = (sx, sy) /\ Permutation (combine xs ys) (combine sx sy) /\ lsorted sx /\
+    let q := loess_q (length xs) s in
+    Z.of_nat q = Z.min (Z.of_nat (length xs)) (ceilQ (s * Qofnat (length xs))) /\ (1 <= q)%nat /\
+    Forall (fun qd =>
+      let x := fst (fst qd) in
+      let n0 := window_start 0 sx q x in
+      (n0 + q <= length sx)%nat /\
+      (forall j k a b, (n0 <= j < n0 + q)%nat -> (k < n0 \/ n0 + q <= k)%nat ->
+         nth_error sx j = Some a -> nth_error sx k = Some b -> Qabs (a - x) <= Qabs (b - x)) /\
+      query_read sx sy (Z.to_nat deg) q n0 qd) qs.
+Proof.
+  intros Hn (s' & Es & Hl & Hu & [(_ & C & _)|(Hd & Hs & _ & _ & _ & sx & sy & Ep & Hso & Lx & Ly & Perm & q & Hq & Hq0 & F)]);
+    [discriminate C|].
+  injection Es as <-. split; [exact Hs|]. split; [exact Hd|]. split; [exact Hu|].
+  exists sx, sy. split; [exact Ep|]. split; [exact Perm|]. split; [exact Hso|]. cbv zeta.
+  specialize (Hq0 eq_refl). subst q.
+  split; [|split].
+  - exact (proj1 (loess_window_nearest xs ys s 0 sx sy Hl Hn Hs Ep)).
+  - exact (proj1 (proj2 (loess_window_nearest xs ys s 0 sx sy Hl Hn Hs Ep))).
+  - eapply Forall_impl; [|exact F]. intros [[x st] v] (n0 & _ & E0 & R). cbn [fst] in *. specialize (E0 eq_refl). subst n0.
+    destruct (loess_window_nearest xs ys s x sx sy Hl Hn Hs Ep) as (_ & _ & B & _ & W).
+    split; [exact B|]. split; [exact W | exact R].
+Qed.
+
+(* ---------------------------------------------------------------------- *)
+(* "reproduces data generated by a polynomial of degree at most d", at the  *)
+(* level of the OBSERVED numbers                                            *)
+(* ---------------------------------------------------------------------- *)
+Theorem poly_accept_reproduces xs ys w deg cs qs lst lps u rcs rfs rlps p :
+  poly_accept xs ys w deg 0 cs qs lst lps u rcs rfs rlps ->
+  let d := Z.to_nat deg in
+  let wl := weights_or_ones (length xs) w in
+  length p = S d ->
+  (forall i, (i < length xs)%nat -> vn ys i == poly_eval p (vn xs i)) ->
+  enough_points d xs wl ->
+  exists beta kap, Forall2 Qeq beta p /\
+    coeffs_read (monomials d xs) wl ys beta kap cs /\ coeffs_read (monomials d xs) wl ys beta kap lps /\
+    exists beta_go, cs = map XFin beta_go /\ Forall (F_read beta_go beta kap) qs.
+Proof.
+  intros (Hx & Hw & Hu & [(_ & C & _)|(Hd & Hy & Hl & _ & Hq & _ & _ & _ & D)]) d wl Hp Hdata Hen; [discriminate C|].
+  cbv zeta in D. fold d in D. fold wl in D.
+  pose proof (monomials_cols d xs) as Hcols.
+  destruct (design_wf (length xs) ys w _ Hy Hl Hw Hcols) as [Hwf Hwn]. cbv zeta in Hwf, Hwn. fold wl in Hwf, Hwn.
+  destruct Hwf as (Hy' & Hwl & _).
+  destruct D as [S|(beta & kap & (L & O & M & U & K) & R1 & _ & R2 & bg & Ebg & F)].
+  - exfalso. apply S.
+    exact (proj2 (proj2 (normal_matrix_regular (length xs) (monomials d xs) wl Hcols Hwl Hwn (enough_points_indep d xs wl Hen)))).
+  - exists beta, kap. split.
+    + rewrite monomials_len in L.
+      apply (minimiser_reproduces d xs ys wl p beta Hy Hwl Hwn Hp L Hdata); [|exact Hen].
+      apply M. now rewrite monomials_len.
+    + split; [exact R1|]. split; [exact R2|]. exists bg. split; [exact Ebg | exact F].
+Qed.
+
+(* "LOESS reproduces polynomials of degree at most its degree", at the level of the OBSERVED value: data on a
+   polynomial p, a window with deg+1 distinct abscissae of positive tricube weight -> the value is within
+   loess_tol of p(x) (unless all window points sit at x, or kappa > 1e11) *)
+Theorem query_read_reproduces sx sy deg q n0 x v p :
+  query_read sx sy deg q n0 (x, 0%Z, v) -> length p = S deg ->
+  Forall (fun pr => snd pr == poly_eval p (fst pr)) (combine sx sy) ->
+  (forall cx cy w, window_read sx sy q n0 x cx cy w -> enough_points deg cx w) ->
+  loess_design sx sy q n0 x = FSingular \/
+  exists cx cy w beta kap, window_read sx sy q n0 x cx cy w /\ Forall2 Qeq beta p /\
+    (kappa_max < kap \/ exists o, v = XFin o /\ Qabs (o - poly_eval p x) <= loess_tol kap beta cy x).
+Proof.
+  intros [(_ & C)|[(S & _)|(_ & cx & cy & w & W & D)]] Hp Hdata Hen; [discriminate C | now left | right].
+  pose proof (Hen cx cy w W) as En.
+  destruct W as (Ecx & Ecy & Lxy & d & Hd & Hin & Hex & Ew & Hwn).
+  assert (Hcols := monomials_cols deg cx).
+  assert (Lw : length w = length cx) by (subst w; now rewrite map_length).
+  assert (Hwn' : forall i, (i < length cx)%nat -> 0 <= vn w i) by (intros i Hi; apply Forall_vn_nonneg; [exact Hwn | now rewrite Lw]).
+  assert (Hwin : forall i, (i < length cx)%nat -> vn cy i == poly_eval p (vn cx i)).
+  { apply (Forall_combine_vn (fun a b => b == poly_eval p a) cx cy (eq_sym Lxy)).
+    rewrite Ecx, Ecy, combine_firstn', combine_skipn'. rewrite Forall_forall in *. intros pr Hpr.
+    apply In_firstn, In_skipn in Hpr. now apply Hdata. }
+  destruct D as [S|(beta & kap & (L & O & M & U & K) & R)].
+  - exfalso. apply S.
+    exact (proj2 (proj2 (normal_matrix_regular (length cx) (monomials deg cx) w Hcols Lw Hwn' (enough_points_indep deg cx w En)))).
+  - assert (B : Forall2 Qeq beta p).
+    { rewrite monomials_len in L.
+      apply (minimiser_reproduces deg cx cy w p beta Lxy Lw Hwn' Hp L Hwin); [|exact En].
+      apply M. now rewrite monomials_len. }
+    exists cx, cy, w, beta, kap. split.
+    + repeat split; try assumption. exists d. repeat split; assumption.
+    + split; [exact B|]. destruct R as [R|(o & Eo & R)]; [now left|right].
+      exists o. split; [exact Eo|]. now rewrite <- (poly_eval_ext beta p x B).
+Qed.
